@@ -20,7 +20,7 @@ from esrally.driver import driver
 from harness import actors, c01, c04
 from harness.common import concrete
 from symx import core
-from symx.core import fresh_bool, fresh_int, observe, shadowed
+from symx.core import choose, fresh_bool, fresh_int, observe, shadowed
 from symx.explore import Harness
 
 PROPERTY = "C09"
@@ -420,7 +420,11 @@ def handler_faults(sl):
     failures = [x for x in new if x[1] == "BenchmarkFailure"]
     observe("exactly one BenchmarkFailure", len(failures) == 1)
     if failures:
-        observe("the failure goes to the sender of the message that was being handled", failures[0][0] == (k, src.addressDetails))
+        # ... or, when the message came from the actor itself (a wake-up), straight to where the actor forwards failures: a
+        # notification to oneself queues up behind whatever is waiting in the inbox (harness tick_fault_overtaken)
+        to_sender = failures[0][0] == (k, src.addressDetails)
+        upstream = src.addressDetails == k and failures[0][0][0] == k and failures[0][0][1] != k
+        observe("the failure goes to the sender of the message that was being handled (for a message to oneself: to the sender or onwards)", to_sender or upstream)
         observe("the failure names the cause", "injected fault" in str(failures[0][2].message) + str(failures[0][2].cause))
         idx = new.index(failures[0])
         observe("nothing else is sent after the fault", idx == len(new) - 1)
@@ -644,6 +648,42 @@ def adapter_error_policy(sl):
     core.note("policy", {"global": "abort" if global_abort else "continue", "lenient": lenient, "fails": fails, "outcome": (how, repr(err)[:80])})
     observe("the run fails iff on-error=abort and a request of a task that does not ignore non-fatal errors failed",
             (how == "raise" and isinstance(err, exceptions.RallyError)) == must_abort and (how == "ret") == (not must_abort))
+
+
+def tick_fault_overtaken(sl):
+    """the metrics store fails in the driver's periodic post-processing (a wake-up, i.e. a message of the driver to itself) while the
+    last worker's JoinPointReached for the LAST join point is already waiting in the driver's inbox. A failure notification that
+    the driver addresses to itself queues up behind it: whatever the order of the two, once the fault has happened race control must
+    not get a BenchmarkComplete before the failure (it would store and print final results of a failed race)."""
+    s = c01.materialise("seq2x2", (1, False, (("jpr", 0, False, False, None), ("wait", 0, False, False, None))))
+    s.da.post_process_timer = driver.DriverActor.POST_PROCESS_INTERVAL_SECONDS
+    s.D.raw_samples = [c01_sample()]
+    real = s.D.sample_post_processor
+    state = {"failed": False}
+
+    def failing_once(samples):
+        if not state["failed"]:
+            state["failed"] = True
+            raise exceptions.RallyError("A transport error occurred while running the operation [bulk_index] against your Elasticsearch metrics store")
+        return real(samples)
+
+    s.D.sample_post_processor = failing_once
+    n0 = len(s.sent)
+    s.actors[s.da_key].receiveMessage(ta.WakeupMessage(1, None), s.addr[s.da_key])
+    # now deliver what is waiting for the driver, in a solver-chosen order
+    for _ in range(6):
+        evs = [e for e in s.enabled() if e[0] == "msg" and e[1][1] == s.da_key]
+        if not evs:
+            break
+        s.fire(evs[choose(len(evs), "next message for the driver")])
+    to_rc = [type(m).__name__ for (src, dst, m) in s.sent[n0:] if dst == s.rc_key]
+    core.note("race control receives", to_rc)
+    core.trace("n", len(to_rc))
+    observe("the fault happened", state["failed"])
+    observe("race control is told about the failure", "BenchmarkFailure" in to_rc)
+    if "BenchmarkComplete" in to_rc:
+        observe("a BenchmarkComplete never reaches race control before the failure notification of a fault that had already happened",
+                "BenchmarkFailure" in to_rc and to_rc.index("BenchmarkFailure") < to_rc.index("BenchmarkComplete"))
 
 
 def coordinator_gating(sl):
@@ -899,6 +939,9 @@ HARNESSES = [
             stubs=["EsClientFactory, track.operation_parameters, runner registry (stub runner with a solver-chosen unsuccessful result per task)"],
             bounds={"tasks": "2 single-client tasks of one parallel element driven by one worker", "policy": "global abort/continue x per-task ignore-response-error-level"},
             doc="per-task error policy through the real AsyncIoAdapter"),
+    Harness("tick_fault_overtaken", tick_fault_overtaken, "bounded-exhaustive", lambda tier: [{}], reads=READS, stubs=STUBS,
+            bounds={"state": "last step, the last JoinPointReached in flight", "order": "every order of the messages waiting for the driver after the failing tick"},
+            doc="a failure in the periodic post-processing cannot be overtaken by BenchmarkComplete"),
     Harness("coordinator_gating", coordinator_gating, "symbolic", lambda tier: [{}], reads=READS, stubs=STUBS, doc="(v) no results on error or cancel"),
     Harness("race_result", race_result, "symbolic", lambda tier: [{}], reads=READS, stubs=STUBS, doc="(v) race() raises for a failure result"),
 ]
